@@ -203,8 +203,59 @@ def main():
                             key = key_base + "|" + status
                             mismatches.append(key)
                             details[key] = text
-    print(json.dumps({"ran": ran, "ops": n_ops, "by_status": by_status, "mismatches": sorted(set(mismatches)),
+    e2e = end_to_end(cfg) if cfg.get("e2e", True) else {}
+    print(json.dumps({"e2e": e2e, "ran": ran, "ops": n_ops, "by_status": by_status, "mismatches": sorted(set(mismatches)),
                       "details": details, "truncated": truncated, "wall_s": round(time.time() - t0, 1)}))
+
+
+def end_to_end(cfg):
+    """torch.onnx.export(dynamo=True) of small modules built from the modelled operators; the exported model on
+    onnxruntime vs the module.  -> {name: "equal" | "values" | "shape" | "dtype" | "export-error: ..."}"""
+    import io
+
+    import numpy as np
+    import onnxruntime as ort
+    import torch
+
+    def mod(f):
+        class M(torch.nn.Module):
+            def forward(self, *xs):
+                return f(*xs)
+        return M()
+
+    x23 = torch.arange(6).reshape(2, 3)
+    x234 = torch.arange(24).reshape(2, 3, 4)
+    mods = {
+        "roll-last-dim": (mod(lambda x: torch.roll(x, 1, -1)), (x23,)),
+        "roll-shift-beyond-size": (mod(lambda x: torch.roll(x.reshape(2, -1), -5, 1).transpose(0, -1)), (torch.arange(8),)),
+        "roll-within-size": (mod(lambda x: torch.roll(x, [1, -2], [0, 1])), (x234,)),
+        "narrow-flatten": (mod(lambda x: torch.narrow(x, 0, -2, 2).flatten(0) + 1), (torch.arange(12).reshape(4, 3),)),
+        "div-floor-sum": (mod(lambda x: torch.div(x, 3, rounding_mode="floor").sum(dim=-1, keepdim=True)), (torch.arange(-6, 6).reshape(3, 4),)),
+        "views": (mod(lambda x: x.permute(2, -3, 1).flatten(1).unsqueeze(-1).expand(-1, -1, 2).transpose(0, -1).reshape(2, -1)), (x234,)),
+        "index-ops": (mod(lambda x: torch.cat([x.select(1, -1), x[:, 0, :].flip(-1)], -1).cumsum(0).clamp(3, 40)), (x234,)),
+        "stack-split-tril": (mod(lambda x: torch.stack(torch.split(x, 2, -1), 0).sum(0).tril(-1).remainder(-5)), (x234,)),
+    }
+    out = {}
+    for name in sorted(mods):
+        m, args = mods[name]
+        try:
+            prog = torch.onnx.export(m, args, dynamo=True, verbose=False)
+            buf = io.BytesIO()
+            prog.save(buf)
+            so = ort.SessionOptions()
+            so.log_severity_level = 4
+            sess = ort.InferenceSession(buf.getvalue(), so, providers=["CPUExecutionProvider"])
+            got = sess.run(None, {i.name: a.numpy() for i, a in zip(sess.get_inputs(), args)})[0]
+            want = m(*args).numpy()
+            if got.dtype != want.dtype:
+                out[name] = "dtype"
+            elif got.shape != want.shape:
+                out[name] = "shape"
+            else:
+                out[name] = "equal" if np.array_equal(got, want) else "values"
+        except Exception as e:
+            out[name] = "export-error: " + type(e).__name__
+    return out
 
 
 if __name__ == "__main__":
